@@ -96,11 +96,32 @@ type Case struct {
 	// ((TailQ..., params...) -> results: drop TailQ, return_call[_indirect] the host function), so
 	// that the tail-calling function's own signature differs from the host function's.
 	TailQ string `json:"tail_extra_params,omitempty"`
+	// Reexport: a second guest module imports echo and id from the guest and re-exports them;
+	// Go (and the re-entering host function) look them up through that module.
+	Reexport bool `json:"reexport,omitempty"`
 }
 
 var styles = []string{"reflect", "reflect-ctx", "reflect-mod", "gofunc", "gomodfunc"}
 
 func isReflect(style string) bool { return strings.HasPrefix(style, "reflect") }
+
+// usesIntKind: a reflective case with Go int/uint at an i32 position (the builder may reject it).
+func usesIntKind(c Case) bool {
+	if !isReflect(c.Style) {
+		return false
+	}
+	for i := range c.P {
+		if c.P[i] == 'i' && (sel(c.PGo, i) == 'n' || sel(c.PGo, i) == 'N') {
+			return true
+		}
+	}
+	for i := range c.R {
+		if c.R[i] == 'i' && (sel(c.RGo, i) == 'n' || sel(c.RGo, i) == 'N') {
+			return true
+		}
+	}
+	return false
+}
 
 func vt(c byte) byte {
 	switch c {
@@ -475,7 +496,10 @@ type hostState struct {
 	c        Case
 	guest    api.Module
 	cur      *Vec
-	cb       int // 0: none, 1: call id back with Call, 2: with CallWithStack
+	outer    api.Module // module through which echo is looked up for re-entry (re-exporting module or the guest)
+	depth    int
+	reIdx    int // vector index of the outermost level of a nested re-entry
+	cb       int // 0: none, 1: call id back with Call, 2: with CallWithStack, 4: re-enter echo (nested, other vectors)
 	calls    [][]uint64
 	padCalls []padCall
 	problems []string
@@ -489,8 +513,63 @@ func (h *hostState) problem(f string, a ...any) {
 }
 
 // callback calls the guest's id with the received arguments and checks identity.
+// resultsFor: what the host function returns for the arguments it received.
+func (h *hostState) resultsFor(got []uint64) []uint64 {
+	if h.cb == 4 && len(h.c.Vecs) > 0 { // nested re-entry: level k works on vector reIdx+k
+		return h.c.Vecs[(h.reIdx+h.depth)%len(h.c.Vecs)].Res
+	}
+	if h.cur != nil {
+		return h.cur.Res
+	}
+	return make([]uint64, len(h.c.R))
+}
+
+// reenter: the host function calls the SAME export (echo) again, nested, with the next vector.
+func (h *hostState) reenter(ctx context.Context, got []uint64) {
+	if h.depth >= 2 || h.outer == nil {
+		return
+	}
+	next := &h.c.Vecs[(h.reIdx+h.depth+1)%len(h.c.Vecs)]
+	fn := h.outer.ExportedFunction("echo") // a fresh lookup: the outer invocation's api.Function is in use
+	if fn == nil {
+		h.problem("re-entry: no export echo")
+		return
+	}
+	h.depth++
+	defer func() { h.depth-- }()
+	var res []uint64
+	var err error
+	if h.depth%2 == 1 {
+		res, err = fn.Call(ctx, next.Args...)
+	} else {
+		n := len(next.Args)
+		if len(next.Res) > n {
+			n = len(next.Res)
+		}
+		st := make([]uint64, n)
+		copy(st, next.Args)
+		err = fn.CallWithStack(ctx, st)
+		res = st[:len(next.Res)]
+	}
+	if err != nil {
+		h.problem("nested echo (level %d) called from inside the host function failed: %v", h.depth, strings.SplitN(err.Error(), "\n", 2)[0])
+		return
+	}
+	want := next.Res
+	for i := range want {
+		if i >= len(res) || canon(h.c.R[i], res[i]) != want[i] {
+			h.problem("nested echo%s (level %d, called from inside the host function through a fresh lookup of the same export) returned %s, the host function returned %s for these arguments", fmtVals(h.c.P, next.Args), h.depth, fmtVals(h.c.R, res), fmtVals(h.c.R, want))
+			return
+		}
+	}
+}
+
 func (h *hostState) callback(ctx context.Context, mod api.Module, got []uint64) {
 	if h.cb == 0 {
+		return
+	}
+	if h.cb == 4 {
+		h.reenter(ctx, got)
 		return
 	}
 	if mod == nil {
@@ -559,9 +638,7 @@ func (h *hostState) stackFn(ctx context.Context, mod api.Module, stack []uint64)
 			}
 		}
 	}
-	if h.cur != nil {
-		copy(stack, h.cur.Res) // canonical encodings (api.EncodeU32 / EncodeF32 / ...)
-	}
+	copy(stack, h.resultsFor(got)) // canonical encodings (api.EncodeU32 / EncodeF32 / ...)
 }
 
 // Named types of every accepted kind (the builder accepts parameter and result types by kind).
@@ -575,8 +652,16 @@ type (
 	MyPtr uintptr
 )
 
-// goType: selector s/u = plain signed/unsigned type, S/U = named type of the same kind.
+// goType: selector s/u = plain signed/unsigned type, S/U = named type of the same kind,
+// n/N = Go int/uint for an i32 position (the builder may reject these kinds; if it accepts
+// them the values must round-trip: int as the signed 32-bit value).
 func goType(t, sel byte) reflect.Type {
+	if t == 'i' && sel == 'n' {
+		return reflect.TypeOf(int(0))
+	}
+	if t == 'i' && sel == 'N' {
+		return reflect.TypeOf(uint(0))
+	}
 	named := sel == 'S' || sel == 'U'
 	unsigned := sel == 'u' || sel == 'U'
 	switch t {
@@ -628,6 +713,16 @@ func sel(s string, i int) byte {
 // bitsOf reads the raw bits of a reflected argument without any float conversion.
 func bitsOf(v reflect.Value) uint64 {
 	switch v.Kind() {
+	case reflect.Int: // must be the sign-extended 32-bit value
+		if x := v.Int(); x != int64(int32(x)) {
+			return uint64(x) | 1<<62 // not a 32-bit value: make the mismatch visible
+		}
+		return uint64(uint32(v.Int()))
+	case reflect.Uint:
+		if x := v.Uint(); x > math.MaxUint32 {
+			return x | 1<<62
+		}
+		return v.Uint()
 	case reflect.Int32:
 		return uint64(uint32(v.Int()))
 	case reflect.Int64:
@@ -649,6 +744,10 @@ var f32Type = reflect.TypeOf(float32(0))
 func valueOf(t reflect.Type, bits uint64) reflect.Value {
 	var v reflect.Value
 	switch t.Kind() {
+	case reflect.Int:
+		v = reflect.ValueOf(int(int32(uint32(bits))))
+	case reflect.Uint:
+		v = reflect.ValueOf(uint(uint32(bits)))
 	case reflect.Int32:
 		v = reflect.ValueOf(int32(uint32(bits)))
 	case reflect.Uint32:
@@ -715,13 +814,10 @@ func (h *hostState) reflectFn() any {
 		}
 		h.calls = append(h.calls, got)
 		h.callback(ctx, mod, got)
+		rr := h.resultsFor(got)
 		res := make([]reflect.Value, len(out))
 		for i := range out {
-			var b uint64
-			if h.cur != nil {
-				b = h.cur.Res[i]
-			}
-			res[i] = valueOf(out[i], b)
+			res[i] = valueOf(out[i], rr[i])
 		}
 		return res
 	}).Interface()
@@ -882,7 +978,7 @@ func valid(c Case) bool {
 		return false
 	}
 	for _, ch := range c.PGo + c.RGo {
-		if !strings.ContainsRune("suSU", ch) {
+		if !strings.ContainsRune("suSUnN", ch) {
 			return false
 		}
 	}
@@ -940,6 +1036,7 @@ func normalise(c *Case) {
 
 type runStats struct {
 	dirtyOut, dirtyOutStack, dirtyIn int
+	rejectedIntKind                  bool
 }
 
 func runCase(c Case) (f *failure, st runStats) {
@@ -992,6 +1089,10 @@ func runCase(c Case) (f *failure, st runStats) {
 	}
 	for _, name := range hbNames {
 		if _, err := hbs[name].Instantiate(lctx); err != nil {
+			if usesIntKind(c) && strings.Contains(err.Error(), "unsupported") {
+				st.rejectedIntKind = true // Go int/uint are not among the documented kinds: rejection is fine
+				return nil, st
+			}
 			return failf("%s: the builder rejected the host module %s: %v", describe(c), name, err), st
 		}
 	}
@@ -1009,6 +1110,20 @@ func runCase(c Case) (f *failure, st runStats) {
 		return failf("%s: guest module importing the host function was rejected: %v", describe(c), strings.SplitN(err.Error(), "\n", 2)[0]), st
 	}
 	h.guest = guest
+	lookup := guest // module through which echo / id are looked up
+	if c.Reexport {
+		om := &wasmenc.Module{}
+		om.ExportFunc("echo", om.ImportFunc("guest", "echo", vts(c.P), vts(c.R)))
+		om.ExportFunc("id", om.ImportFunc("guest", "id", vts(c.P), vts(c.P)))
+		ocm, err := rt.CompileModule(lctx, om.Encode())
+		if err == nil {
+			lookup, err = rt.InstantiateModule(lctx, ocm, wazero.NewModuleConfig().WithName("outer"))
+		}
+		if err != nil {
+			return failf("%s: module re-exporting the guest's echo and id was rejected: %v", describe(c), firstLine(err)), st
+		}
+	}
+	h.outer = lookup
 	ctx := context.WithValue(lctx, ctxKey{}, "c08")
 	np, nr := len(c.P), len(c.R)
 
@@ -1017,7 +1132,11 @@ func runCase(c Case) (f *failure, st runStats) {
 	call := func(name string, withStack bool, args []uint64, nres int) ([]uint64, error) {
 		fn := fnCache[name]
 		if fn == nil {
-			fn = guest.ExportedFunction(name)
+			if name == "echo" || name == "id" {
+				fn = lookup.ExportedFunction(name)
+			} else {
+				fn = guest.ExportedFunction(name)
+			}
 			fnCache[name] = fn
 		}
 		if fn == nil {
@@ -1101,7 +1220,7 @@ func runCase(c Case) (f *failure, st runStats) {
 			for _, variant := range []struct {
 				fn string
 				cb int
-			}{{"echo", 0}, {"echo", 1}, {"echo", 2}, {"echo_ind", 0}, {"echo_tail", 0}, {"echo_tci", 0}, {"hold_tail", 0}, {"hold_tci", 0}, {"echo_ind", 3}, {"echo_tail", 3}, {"hold_tci", 3}} {
+			}{{"echo", 0}, {"echo", 1}, {"echo", 2}, {"echo", 4}, {"echo_ind", 0}, {"echo_tail", 0}, {"echo_tci", 0}, {"hold_tail", 0}, {"hold_tci", 0}, {"echo_ind", 3}, {"echo_tail", 3}, {"hold_tci", 3}} {
 				cb := variant.cb
 				if (variant.fn == "echo_tail" || variant.fn == "echo_tci" || strings.HasPrefix(variant.fn, "hold_")) && c.NoTail {
 					continue
@@ -1120,6 +1239,31 @@ func runCase(c Case) (f *failure, st runStats) {
 				}
 				h.cb = cb
 				what := fmt.Sprintf("vector %d: %s via %s", vi, variant.fn, form(ws))
+				if cb == 4 {
+					// nested re-entry through the same export: levels use vectors vi, vi+1, vi+2
+					what += " with the host function re-entering echo (fresh lookup of the same export) two levels deep with other vectors"
+					h.reIdx = vi
+					res, err := call("echo", ws, v.Args, nr)
+					h.cb = 0
+					calls, probs := h.calls, h.problems
+					h.calls, h.problems, h.padCalls = nil, nil, nil
+					if err != nil {
+						return failf("%s: %s failed: %v", describe(c), what, firstLine(err)), st
+					}
+					if len(probs) > 0 {
+						return failf("%s: %s: %s", describe(c), what, probs[0]), st
+					}
+					for lvl := 0; lvl < 3; lvl++ {
+						wantArgs := c.Vecs[(vi+lvl)%len(c.Vecs)].Args
+						if lvl >= len(calls) || fmt.Sprint(calls[lvl]) != fmt.Sprint(wantArgs) {
+							return failf("%s: %s: host-side record %v, expected level %d to receive %s", describe(c), what, calls, lvl, fmtVals(c.P, wantArgs)), st
+						}
+					}
+					if f := sameRes(what+": results of the outermost call", c.R, res, v.Res); f != nil {
+						return f, st
+					}
+					continue
+				}
 				if cb != 0 {
 					what += " with the host function calling id back"
 				}
@@ -1359,6 +1503,9 @@ func describe(c Case) string {
 	}
 	if nMods(c) > 1 {
 		g += fmt.Sprintf(" host-modules=%d", nMods(c))
+	}
+	if c.Reexport {
+		g += " echo/id-looked-up-through-a-re-exporting-module"
 	}
 	if c.Overflow {
 		g += " with-overflow-sequence"
@@ -1633,7 +1780,8 @@ func genConc(t *rapid.T) ConcCase {
 	}
 	nr := rapid.IntRange(0, 5).Draw(t, "nr")
 	c.P, c.R = genTypes(t, np, "p"), genTypes(t, nr, "r")
-	c.PGo, c.RGo = genGo(t, np, "p"), genGo(t, nr, "r")
+	noInt := strings.NewReplacer("n", "s", "N", "u")
+	c.PGo, c.RGo = noInt.Replace(genGo(t, np, "p")), noInt.Replace(genGo(t, nr, "r"))
 	c.G = rapid.IntRange(2, 8).Draw(t, "goroutines")
 	c.N = rapid.SampledFrom([]int{50, 200, 200, 600}).Draw(t, "calls")
 	c.Seed = rapid.Uint64().Draw(t, "seed")
@@ -1862,7 +2010,7 @@ func genGo(t *rapid.T, n int, label string) string {
 		case 1:
 			b[i] = 'u'
 		default:
-			b[i] = "suSU"[rapid.IntRange(0, 3).Draw(t, "su")]
+			b[i] = "suSUsunN"[rapid.IntRange(0, 7).Draw(t, "su")]
 		}
 	}
 	return string(b)
@@ -1923,6 +2071,7 @@ func genCase(t *rapid.T) Case {
 			}
 		}
 	}
+	c.Reexport = rapid.IntRange(0, 2).Draw(t, "reexport") == 1
 	c.Overflow = rapid.IntRange(0, 79).Draw(t, "overflow-sequence") == 17
 	if rapid.IntRange(0, 2).Draw(t, "wide-tail-caller") != 0 {
 		nq := rapid.IntRange(1, 16).Draw(t, "nq")
@@ -2035,6 +2184,16 @@ func labelsOf(c Case, st runStats) (bool, []string) {
 	}
 	if c.Overflow {
 		l = append(l, "overflow-then-plain-call-on-one-handle")
+	}
+	if usesIntKind(c) {
+		if st.rejectedIntKind {
+			l = append(l, "go-int/uint-kind-rejected-by-builder")
+		} else {
+			l = append(l, "go-int/uint-kind-accepted-and-checked")
+		}
+	}
+	if c.Reexport {
+		l = append(l, "looked-up-through-re-exporting-module")
 	}
 	if c.TailQ != "" {
 		l = append(l, "wide-tail-caller")
